@@ -114,6 +114,30 @@ LAYOUTS = {
     "<cff::cff2::Header as binary::read::ReadBinary>::read": (
         "CFF2 header: majorVersion, minorVersion, headerSize (uint8 each), topDictLength (uint16)",
         [(1, "major"), (1, "minor"), (1, "size"), (2, "topdict")]),
+    # ---- sfnt tables that are also written (a swap made in reader and writer alike passes the reader/writer comparison) ----
+    "<tables::HeadTable as binary::read::ReadBinary>::read": (
+        "head: majorVersion, minorVersion, fontRevision, checksumAdjustment, magicNumber, flags, unitsPerEm, created, modified, xMin, yMin, xMax, "
+        "yMax, macStyle, lowestRecPPEM, fontDirectionHint, indexToLocFormat, glyphDataFormat",
+        [(2, "major"), (2, "minor"), (4, "revision"), (4, "checksum"), (4, "magic"), (2, "flags"), (2, "unitsperem"), (8, "created"), (8, "modified"),
+         (2, "xmin"), (2, "ymin"), (2, "xmax"), (2, "ymax"), (2, "macstyle"), (2, "lowestrec"), (2, "direction"), (None, "loc"), (2, "glyphdata")]),
+    "<tables::HheaTable as binary::read::ReadBinary>::read": (
+        "hhea: majorVersion, minorVersion, ascender, descender, lineGap, advanceWidthMax, minLeftSideBearing, minRightSideBearing, xMaxExtent, "
+        "caretSlopeRise, caretSlopeRun, caretOffset, 4 reserved, metricDataFormat, numberOfHMetrics",
+        [(2, None), (2, None), (2, "ascender"), (2, "descender"), (2, "linegap"), (2, "advancewidthmax"), (2, "minleft"), (2, "minright"), (2, "xmaxextent"),
+         (2, "sloperise"), (2, "sloperun"), (2, "caretoffset"), (2, None), (2, None), (2, None), (2, None), (2, None), (2, "hmetrics")]),
+    "<tables::MaxpVersion1SubTable as binary::read::ReadBinary>::read": (
+        "maxp 1.0: maxPoints, maxContours, maxCompositePoints, maxCompositeContours, maxZones, maxTwilightPoints, maxStorage, maxFunctionDefs, "
+        "maxInstructionDefs, maxStackElements, maxSizeOfInstructions, maxComponentElements, maxComponentDepth",
+        [(2, "maxpoints"), (2, "maxcontours"), (2, "compositepoints"), (2, "compositecontours"), (2, "zones"), (2, "twilight"), (2, "storage"), (2, "functiondefs"),
+         (2, "instructiondefs"), (2, "stackelements"), (2, "sizeofinstructions"), (2, "componentelements"), (2, "componentdepth")]),
+    "<post::Header as binary::read::ReadBinary>::read": (
+        "post header: version, italicAngle, underlinePosition, underlineThickness, isFixedPitch, minMemType42, maxMemType42, minMemType1, maxMemType1",
+        [(4, "version"), (4, "italic"), (2, "underlineposition"), (2, "underlinethickness"), (4, "fixedpitch"), (4, "minmemtype42"), (4, "maxmemtype42"),
+         (4, "minmemtype1"), (4, "maxmemtype1")]),
+    "<tables::os2::Os2 as binary::read::ReadBinaryDep>::read_dep": (
+        "OS/2 version 0 part: version, xAvgCharWidth, usWeightClass, usWidthClass, fsType, ten subscript/superscript/strikeout values, sFamilyClass, "
+        "panose[10], ulUnicodeRange1-4, achVendID, fsSelection, usFirstCharIndex, usLastCharIndex",
+        [(2, None), (2, None), (2, None), (2, None), (2, None)] + [(2, None)] * 11 + [("bytes", None)] + [(4, None)] * 5 + [(2, None), (2, None), (2, None)]),
     # ---- cmap ----
     "<tables::cmap::Cmap<'b> as binary::read::ReadBinary>::read": (
         "cmap header: version, numTables, encodingRecords[]",
@@ -137,6 +161,7 @@ GROUPS = {
     "woff2": [p for p in LAYOUTS if p.startswith("<woff2::")],
     "container": [p for p in LAYOUTS if p.startswith(("<tables::OffsetTable", "<woff::WoffHeader"))],
     "cff": [p for p in LAYOUTS if p.startswith("<cff::")],
+    "sfnt": [p for p in LAYOUTS if p.startswith(("<tables::HeadTable", "<tables::HheaTable", "<tables::MaxpVersion1SubTable", "<post::Header", "<tables::os2::Os2"))],
     "kern": [p for p in LAYOUTS if "kern::" in p],
 }
 
